@@ -42,6 +42,8 @@ OBLIGATIONS = {
     "overwrite_operand": "an expression assigns to one of its own operands",
     "coordinate_assignment": "an expression assigns to a coordinate",
     "undefined_event": "an event whose reference meaning is undefined was fired",
+    "derived_track_edited": "a track cut out of a track listing >= 2 features got a feature added and one removed",
+    "self_assignment": "an expression assigns an existing feature to itself",
 }
 
 
@@ -112,6 +114,9 @@ def _exprs():
               lambda M: [p + q * 2 + _plain_sum(A(M, "b")) for p, q in zip(A(M, "a"), A(M, "b"))]))
     E.append(("a*(b+2)-SUM{a}", None, ["a", "b"],
               lambda M: [p * (q + 2) - _plain_sum(A(M, "a")) for p, q in zip(A(M, "a"), A(M, "b"))]))
+    # assignment of a feature to itself: the value must survive (source read after the target was removed = data loss)
+    E.append(("a=a", "a", ["a"], lambda M: list(A(M, "a"))))
+    E.append(("b=(b)", "b", ["b"], lambda M: list(A(M, "b"))))
     E.append(("a=x+b", "a", ["b"], lambda M: [p + q for p, q in zip(M["x"], A(M, "b"))]))
     E.append(("x=a", "x", ["a"], lambda M: list(A(M, "a"))))
     E.append(("z=a+1", "z", ["a"], lambda M: [p + 1 for p in A(M, "a")]))
@@ -147,6 +152,7 @@ def _events(N, variant):
            ["scalar", "SCALAR_ADDER", "b", "s", "c"]]
     ev += [["nonvoid", "SUM", "a"], ["nonvoid", "MAX", "b"]]
     ev += [["expr", e[0]] for e in _exprs()]
+    ev.append(["derive", "spantime"])
     return [tuple(e) for e in alpha.order(variant, ev)]
 
 
@@ -197,6 +203,15 @@ def apply_event(N, variant):
             return t.operate(getattr(Operator, ev[1]), ev[2])
         elif k == "expr":
             return t.operate(ev[1])
+        elif k == "derive":
+            # a track cut out of t (extractSpanTime copies the observations and carries the feature table over) gets a new
+            # feature and loses its first one: t itself must not notice
+            t0 = alpha.t0(variant)
+            d = t.extractSpanTime(alpha.obstime(t0 - 1), alpha.obstime(t0 + 3 * N))
+            d.createAnalyticalFeature("q", 1.0)
+            first = d.getListAnalyticalFeatures()[0]
+            if first != "q":
+                d.removeAnalyticalFeature(first)
         else:
             raise RuntimeError("unknown event %r" % (ev,))
 
@@ -318,6 +333,8 @@ def step(M, ev, C):
         if ev[2] not in af:
             return ("undefined", None)
         return ("defined", out)
+    if k == "derive":
+        return ("defined", out)
     if k == "expr":
         text, lhs, operands, fn = EXPRS[ev[1]]
         if any(o not in af for o in operands):
@@ -427,8 +444,12 @@ def make_check(ctx, N, variant, root_case):
                 ctx.oblige("delete_then_recreate")
             if ev[0] == "expr":
                 ctx.oblige("expr_after_delete")
+        if ev[0] == "derive" and len(M["names"]) >= 2 and res[0] == "ok":
+            ctx.oblige("derived_track_edited")
         if ev[0] == "expr" and kind == "defined":
             lhs, ops = EXPRS[ev[1]][1], EXPRS[ev[1]][2]
+            if ev[1] in ("a=a", "b=(b)"):
+                ctx.oblige("self_assignment")
             if lhs in ops:
                 ctx.oblige("overwrite_operand")
             if lhs in ("x", "y", "z"):
